@@ -75,7 +75,7 @@ func text(toks []string) string {
 
 func render(c *Case) string {
 	var b strings.Builder
-	fmt.Fprintf(&b, "package d%d\n\ntype Kind int\n\nconst (\n\tKA Kind = iota\n\tKB\n)\n\ntype Color string\n\nconst (\n\tRed  Color = \"red\"\n\tBlue Color = \"blue\"\n)\n\n", c.Case)
+	fmt.Fprintf(&b, "package d%d\n\ntype Kind int\n\nconst (\n\tKA Kind = iota\n\tKB\n)\n\ntype Color string\n\nconst (\n\tRed  Color = \"red\"\n\tBlue Color = \"Order\"\n)\n\n", c.Case)
 	item := "struct {\n\tId int64\n\tA  int\n\tB  string\n\tK  Kind\n\tC  Color\n}"
 	order := "struct {\n\tId int64\n\tA  int\n\tB  string\n}"
 	comments := func(cs [][]string, qs []Query, indent string) string {
